@@ -14,6 +14,9 @@ CHECKS = {
  "C18": ("Random and hand-shaped recursive / growing calibration sets; the reference expander classifies each program as finite, recursive or unbounded and the library must return Ok, the recursive-calibration error, or (unbounded) simply return, inside a child process with a fixed stack and a watchdog.",
          "Termination is bounded-time evidence (20 s watchdog per case); 'unbounded' means no repeat within 120 nested expansions of the reference.",
          "property-based testing: proptest-generated programs, reference-model classification, crash/hang containment in a child process"),
+ "C19": ("Random programs of the C17 generator (nesting, parameters, measure calibrations, DECLAREs hoisted out of calibration bodies) expanded with a source map; validity predicates over (output, map) with the reference expander's tree saying what each range must hold: one entry per source in order, unmodified targets identical, ranges contiguous/disjoint/covering, nested records parent-relative and covering their parent, list_sources/list_targets inverse at top level and inside every nested map.",
+         "Programs the reference classifies as recursive are left to C18. Known finding c19-hoist-nested-records: nested records of an expansion that hoists an instruction are attributed to the finding only when they equal, record for record, what remove_target_index is known to leave; everything else in such a program is still checked.",
+         "property-based testing: proptest-generated programs, validity-predicate oracle backed by a reference expander"),
  "C29": ("All instruction sequences up to length 3/4 over a 21-letter gate/measure alphabet and random longer ones, for every threshold 0..4, compared with a longest-chain dynamic programme.",
          "Sequence length bounded because the implementation enumerates paths; distinct qubits per gate.",
          "property-based testing: exhaustive small-scope enumeration + proptest random sequences against a reference DP"),
